@@ -392,11 +392,13 @@ def run_ufunc(sub, chunks, scheduler, classes, ctx):
             if ctx is not None and ctx.known("C06-map-overlap-chunk-smaller-than-width"):
                 ctx.count_excluded("C06-map-overlap-chunk-smaller-than-width")
                 return "excluded"
+    # with several padded axes the fill value is spelled per axis, each axis its own (differential: nothing else is needed)
+    fv = sub["fill"] if len(opax) < 2 else {n: float(sub["fill"]) + 2.5 * i for i, n in enumerate(opax)}
     call = lambda x: grid.apply_as_grid_ufunc(f, x, axis=[tuple(opax)], signature=sig, boundary_width=bw,  # noqa: E731
-                                              boundary=sub["boundary"], fill_value=sub["fill"], **kw)
+                                              boundary=sub["boundary"], fill_value=fv, **kw)
     # the in-memory reference is the same ufunc applied without dask options
     eager = lambda x: grid.apply_as_grid_ufunc(f, x, axis=[tuple(opax)], signature=sig, boundary_width=bw,  # noqa: E731
-                                               boundary=sub["boundary"], fill_value=sub["fill"])
+                                               boundary=sub["boundary"], fill_value=fv)
     other = "extend" if sub["boundary"] != "extend" else "periodic"
     sib = lambda x: grid.apply_as_grid_ufunc(f, x, axis=[tuple(opax)], signature=sig, boundary_width=bw, boundary=other, **kw)  # noqa: E731
     return lazy_vs_eager(call, [da], ch, scheduler, False, f"apply_as_grid_ufunc[{mode}]", eager_call=eager, sibling=sib)
@@ -415,8 +417,13 @@ def run_faces_scalar(sub, chunks, scheduler, classes, ctx):
     ds, gc = C03.make_ds(N, nf, sub["extra"])
     has_links = any(l is not None for per in table.values() for sides in per.values() for l in sides)
     fc = gen.table_to_xgcm(C03.table_json(table)) if has_links else None
+    bnd, fil = sub["boundary"], sub["fill"]
+    if sub.get("per_axis"):
+        a_, o_ = "XY"[sub["axis"]], "XY"[1 - sub["axis"]]
+        bnd = {a_: sub["boundary"], o_: sub["boundary"] if sub["other_rule"] == "same" else sub["other_rule"]}
+        fil = {a_: sub["fill"], o_: sub["other_fill"]}
     grid = must_return("Grid construction", Grid, ds, coords=gc, face_connections=fc, autoparse_metadata=False, periodic=False,
-                       boundary=sub["boundary"], fill_value=sub["fill"])
+                       boundary=bnd, fill_value=fil)
     base = ["face"] + [e[0] for e in sub["extra"]] + ["yc", "xc"]
     da = xr.DataArray(A, dims=base).transpose(*sub["dims"])
     fn = getattr(grid, sub["op"])
